@@ -240,3 +240,35 @@ Proof. intros. unfold integrate2d_GaussLegendre, integrate_GaussLegendre. cbv ze
 (* degree 0 and 1 are served by the 2-point rule *)
 Lemma gl_points_small : forall degree, (degree <= 2)%Z -> gl_points degree = 2%Z.
 Proof. intros degree H. unfold gl_points. lia. Qed.
+
+(* 2-D adapter on a product of polynomials: from the two 1-D bounds Bp, Bq,
+   |X Y - Ip Iq| <= Bp (|Iq| + Bq) + |Ip| Bq *)
+Lemma product_error : forall (X Y Ip Iq : C) (Bp Bq : R),
+  Cmod (Cminus X Ip) <= Bp -> Cmod (Cminus Y Iq) <= Bq ->
+  Cmod (Cminus (Cmult X Y) (Cmult Ip Iq)) <= Bp * (Cmod Iq + Bq) + Cmod Ip * Bq.
+Proof.
+  intros X Y Ip Iq Bp Bq HX HY.
+  replace (Cminus (Cmult X Y) (Cmult Ip Iq)) with (Cplus (Cmult (Cminus X Ip) Y) (Cmult Ip (Cminus Y Iq))).
+  2:{ destruct X, Y, Ip, Iq. cbv [Cminus Cplus Copp Cmult fst snd]. f_equal; ring. }
+  eapply Rle_trans; [apply Cmod_triangle|]. rewrite !Cmod_mult.
+  assert (HYn : Cmod Y <= Cmod Iq + Bq).
+  { replace Y with (Cplus Iq (Cminus Y Iq)) at 1 by (destruct Y, Iq; cbv [Cminus Cplus Copp fst snd]; f_equal; ring).
+    eapply Rle_trans; [apply Cmod_triangle|]. lra. }
+  pose proof (Cmod_ge_0 (Cminus X Ip)). pose proof (Cmod_ge_0 Y). pose proof (Cmod_ge_0 Ip). pose proof (Cmod_ge_0 (Cminus Y Iq)).
+  apply Rplus_le_compat.
+  - eapply Rle_trans; [apply Rmult_le_compat; [assumption | assumption | exact HX | exact HYn]|]. lra.
+  - apply Rmult_le_compat_l; assumption.
+Qed.
+
+Theorem gl_adapter_2d_exact : forall (table : Z -> rule Rops) (degree : Z) (d : nat) (eps : R),
+  (forall k, (k <= d)%nat -> Rabs (moment (table (gl_points degree)) k - leg_moment k) <= eps) ->
+  forall (a b c e : R) (cp cq : list C), (length cp <= S d)%nat -> (length cq <= S d)%nat ->
+  let Bp := eps * Rabs (tr_u a b) * scale_cmod cp (tr_M a b) in
+  let Bq := eps * Rabs (tr_u c e) * scale_cmod cq (tr_M c e) in
+  Cmod (Cminus (integrate2d_GaussLegendre Rops table (fun x y => Cmult (cpeval Rops cp x) (cpeval Rops cq y)) a b c e degree)
+               (Cmult (cpint Rops cp a b) (cpint Rops cq c e)))
+    <= Bp * (Cmod (cpint Rops cq c e) + Bq) + Cmod (cpint Rops cp a b) * Bq.
+Proof.
+  intros table degree d eps H a b c e cp cq Hp Hq Bp Bq. rewrite gl_adapter_2d_separable.
+  apply product_error; apply gl_adapter_exact with (d := d); assumption.
+Qed.
